@@ -30,23 +30,24 @@ import (
 //
 // f0/f1 return tag*1000 + ID*10 + k.
 type modSpec struct {
-	ID       int    `json:"id"`
-	ImpFrom  string `json:"imp_from,omitempty"`  // module name f0 is imported from ("imp0"), "" = none
-	TabFrom  string `json:"tab_from,omitempty"`  // module name table 0 is imported from, "" = own
-	ExpTab   bool   `json:"exp_tab,omitempty"`   // export table 0 as "tab"
-	GlobFrom string `json:"glob_from,omitempty"` // module name the funcref global is imported from
-	ExpGlob  bool   `json:"exp_glob,omitempty"`  // export the funcref global as "g"
-	Elem     int    `json:"elem"`                // -1, or the slot of table 0 initialised by an active element segment
-	ElemImp  bool   `json:"elem_imp,omitempty"`  // the element segment names the IMPORTED function imp0 instead of f1
-	GlobInit int    `json:"glob_init,omitempty"` // own funcref global starts as 0: null, 1: ref.func f0, 2: ref.func imp0 (imported function)
-	MemFrom  string `json:"mem_from,omitempty"`  // module name the memory "mem" is imported from, "" = own (1 page, max 3)
-	Tab1From string `json:"tab1_from,omitempty"` // module name table 1 is imported from ("tab1"), "" = own
-	ExpTab1  bool   `json:"exp_tab1,omitempty"`  // export table 1 as "tab1" (a second exported table of the same owner)
-	Elem1    int    `json:"elem1,omitempty"`     // 0, or 1 + the slot of table 1 initialised with f1 by an active element segment
+	ID        int    `json:"id"`
+	ImpFrom   string `json:"imp_from,omitempty"`   // module name f0 is imported from ("imp0"), "" = none
+	TabFrom   string `json:"tab_from,omitempty"`   // module name table 0 is imported from, "" = own
+	ExpTab    bool   `json:"exp_tab,omitempty"`    // export table 0 as "tab"
+	GlobFrom  string `json:"glob_from,omitempty"`  // module name the funcref global is imported from
+	ExpGlob   bool   `json:"exp_glob,omitempty"`   // export the funcref global as "g"
+	Elem      int    `json:"elem"`                 // -1, or the slot of table 0 initialised by an active element segment
+	ElemImp   bool   `json:"elem_imp,omitempty"`   // the element segment names the IMPORTED function imp0 instead of f1
+	GlobInit  int    `json:"glob_init,omitempty"`  // own funcref global starts as 0: null, 1: ref.func f0, 2: ref.func imp0 (imported function)
+	MemFrom   string `json:"mem_from,omitempty"`   // module name the memory "mem" is imported from, "" = own (1 page, max 3)
+	Tab1From  string `json:"tab1_from,omitempty"`  // module name table 1 is imported from ("tab1"), "" = own
+	ExpTab1   bool   `json:"exp_tab1,omitempty"`   // export table 1 as "tab1" (a second exported table of the same owner)
+	StartTrap bool   `json:"start_trap,omitempty"` // the start function traps: instantiation fails late, after the element segments were applied
+	Elem1     int    `json:"elem1,omitempty"`      // 0, or 1 + the slot of table 1 initialised with f1 by an active element segment
 }
 
 func (s modSpec) String() string {
-	return fmt.Sprintf("{id=%d imp=%q tab=%q exptab=%v glob=%q expglob=%v elem=%d elemimp=%v globinit=%d mem=%q tab1=%q exptab1=%v elem1=%d}", s.ID, s.ImpFrom, s.TabFrom, s.ExpTab, s.GlobFrom, s.ExpGlob, s.Elem, s.ElemImp, s.GlobInit, s.MemFrom, s.Tab1From, s.ExpTab1, s.Elem1)
+	return fmt.Sprintf("{id=%d imp=%q tab=%q exptab=%v glob=%q expglob=%v elem=%d elemimp=%v globinit=%d mem=%q tab1=%q exptab1=%v elem1=%d starttrap=%v}", s.ID, s.ImpFrom, s.TabFrom, s.ExpTab, s.GlobFrom, s.ExpGlob, s.Elem, s.ElemImp, s.GlobInit, s.MemFrom, s.Tab1From, s.ExpTab1, s.Elem1, s.StartTrap)
 }
 
 const tableSlots = 3
@@ -276,6 +277,10 @@ func buildModule(s modSpec) []byte {
 	}
 	if s.Elem1 >= 1 && s.Elem1 <= tableSlots {
 		m.Elems = append(m.Elems, wasmenc.ActiveElemFuncsTable(t1, wasmenc.NewB().I32Const(int32(s.Elem1-1)).Bytes(), []uint32{f1}))
+	}
+	if s.StartTrap {
+		sf := m.AddFunc(nil, nil, nil, wasmenc.NewB().Unreachable().Bytes())
+		m.Start = &sf
 	}
 	return m.Encode()
 }
